@@ -4,6 +4,7 @@ package main
 import (
 	"bytes"
 	"context"
+	"errors"
 	"fmt"
 	"io"
 	"math/rand/v2"
@@ -229,6 +230,10 @@ func main() {
 		from := 1 + r.Uint64N(to-1)
 		pairFlaky(run, unit, tree, key, from, to, true, "", []string{"/sumdb/sum.example.org", "/mirror"}[unit%2])
 	})
+	// the witness moves (another feeder got there first) between two submission attempts of one checkpoint:
+	// the retry must carry a proof from the witness's NEW size
+	run.Floor("moving_witness_cycles", 24)
+	run.Units("moving_witness", run.Pick(48, 400), 48, func(unit int64, r *rand.Rand) { movingWitness(run, unit, r, tree, key) })
 	run.Units("chains", run.Pick(24, 240), 0, func(unit int64, r *rand.Rand) { chain(run, unit, r, tree, key) })
 	if run.Thorough() {
 		big := &reftree.Tree{Seed: uint64(run.Seed) + 99, TagA: 1, TagB: 1, Fork: ^uint64(0)}
@@ -493,5 +498,91 @@ func chain(run *ev.Run, unit int64, r *rand.Rand, tree *reftree.Tree, key *refno
 	}
 	if unit == 0 {
 		run.Sample(map[string]any{"part": "chain", "schedule": sched, "steps": w.steps})
+	}
+}
+
+// moving is a witness stub that holds size a, refuses the first Update as stale while moving to size b
+// (a < b < to), and accepts the first later Update whose old size and proof fit what it then holds.
+type moving struct {
+	mu      sync.Mutex
+	t       *reftree.Tree
+	key     *refnote.SignKey
+	cur, b  uint64
+	moved   bool
+	updates []string
+	bad     []string
+	done    bool
+}
+
+func (w *moving) cp(n uint64) []byte {
+	rt := w.t.Root(n)
+	text := string(tlog.FormatTree(tlog.Tree{N: int64(n), Hash: tlog.Hash(rt)}))
+	return refnote.Assemble(text, w.key.SigLine(text))
+}
+
+func (w *moving) GetLatestCheckpoint(context.Context, string) ([]byte, error) {
+	w.mu.Lock()
+	defer w.mu.Unlock()
+	return w.cp(w.cur), nil
+}
+
+func (w *moving) Update(_ context.Context, _ string, old uint64, cp []byte, p [][]byte) ([]byte, error) {
+	w.mu.Lock()
+	defer w.mu.Unlock()
+	n, err := refnote.Parse(cp)
+	if err != nil {
+		return nil, err
+	}
+	tr, err := tlog.ParseTree([]byte(n.Text))
+	if err != nil {
+		return nil, err
+	}
+	to := uint64(tr.N)
+	w.updates = append(w.updates, fmt.Sprintf("old=%d to=%d proof=%d hashes (witness at %d)", old, to, len(p), w.cur))
+	if !w.moved {
+		w.moved = true
+		w.cur = w.b // someone else advanced the witness just before this request landed
+		return w.cp(w.cur), errors.New("old size != current")
+	}
+	if old != w.cur {
+		w.bad = append(w.bad, fmt.Sprintf("retry passed old size %d, the witness reported %d", old, w.cur))
+		return w.cp(w.cur), errors.New("old size != current")
+	}
+	rc, rt := w.t.Root(w.cur), w.t.Root(to)
+	if !reftree.VerifyConsistency(w.cur, to, rc[:], rt[:], p) {
+		w.bad = append(w.bad, fmt.Sprintf("retry carried a proof of %d hashes that is no consistency proof %d -> %d", len(p), w.cur, to))
+		return w.cp(w.cur), errors.New("consistency proof invalid")
+	}
+	w.cur, w.done = to, true
+	return cp, nil
+}
+
+func movingWitness(run *ev.Run, unit int64, r *rand.Rand, tree *reftree.Tree, key *refnote.SignKey) {
+	to := 10 + r.Uint64N(3000)
+	a := 1 + r.Uint64N(to-2)
+	b := a + 1 + r.Uint64N(to-a-1)
+	stub := &stubSumDB{t: tree, key: key, size: to, cache: map[string][]byte{}}
+	w := &moving{t: tree, key: key, cur: a, b: b}
+	cl, err := config.NewLog(origin, key.Vkey(), "http://sumdb.invalid")
+	if err != nil {
+		run.Inconclusive(err.Error())
+		return
+	}
+	ctx, cancel := context.WithTimeout(context.Background(), 20*time.Second)
+	defer cancel()
+	stub.stop = cancel
+	ferr := sumdb.FeedLog(ctx, cl, w, &http.Client{Transport: stub}, 0)
+	run.Count("evaluations")
+	run.Count("moving_witness_cycles")
+	run.Distinct("nontrivial", fmt.Sprintf("moving/%d", min(to/256, 12)))
+	w.mu.Lock()
+	defer w.mu.Unlock()
+	detail := map[string]any{"held": a, "moved_to": b, "log_size": to, "updates": w.updates, "err": fmt.Sprint(ferr), "requests": stub.paths}
+	for _, bd := range w.bad {
+		run.Violate("retry_after_witness_moved;stale_proof_or_old_size", fmt.Sprintf("witness at %d moved to %d while size %d was being submitted: %s", a, b, to, bd), unit, detail)
+		return
+	}
+	if ferr != nil || !w.done {
+		run.Violate("retry_after_witness_moved;never_succeeds", fmt.Sprintf("witness at %d moved to %d while size %d was being submitted: the feeder returned %v and the witness ended at %d", a, b, to, ferr, w.cur), unit, detail)
 	}
 }
